@@ -1,0 +1,480 @@
+//go:build verif
+
+// Contracts for package device, read by the hv verifier (/verif). Comment-only file: compiles to nothing.
+package device
+
+// ---- ghost receiver state, updated at every send on Device.outputEvents (so new send sites are covered automatically)
+//@ ghost var out fun[int]Ev
+//@ ghost var outLen int
+//@ ghost var sounding fun[byte]set[byte]
+//@ ghost var sigs int
+
+//@ on send Device.outputEvents(e) { out = upd(out, outLen, evOf(e)); outLen = outLen + 1; sounding = rx(sounding, evOf(e)) }
+//@ on send Device.sigs(s) { sigs = sigs + 1 }
+
+// C05: every emitted message is a complete three-byte channel message with valid status and data bytes
+//@ sendassert Device.outputEvents(e) [C05] len(e) == 3 && (e[0] & 0xF0 == 0x80 || e[0] & 0xF0 == 0x90 || e[0] & 0xF0 == 0xB0 || e[0] & 0xF0 == 0xE0) && e[1] <= 127 && e[2] <= 127
+
+// receiver model: what a MIDI receiver has sounding after a message
+//@ spec fn rx(s fun[byte]set[byte], e Ev) fun[byte]set[byte] :=
+//@   let st := e.b0 & 0xF0 in let ch := e.b0 & 0x0F in
+//@   if st == 0x90 && e.b2 > 0 then upd(s, ch, upd(s[ch], e.b1, true))
+//@   else if st == 0x80 || st == 0x90 then upd(s, ch, upd(s[ch], e.b1, false))
+//@   else if st == 0xB0 && e.b1 == 123 then upd(s, ch, emptyset("set[byte]"))
+//@   else s
+
+//@ pred modeOK(m config.CollisionMode) :=
+//@   m == config.CollisionOff || m == config.CollisionNoRepeat || m == config.CollisionInterrupt || m == config.CollisionRetrigger
+
+// data-structure well-formedness: established by NewDevice, preserved by every method
+//@ pred wf(d *Device) :=
+//@   d != nil && d.channel < 16 && d.velocity >= 1 && d.velocity <= 127
+//@   && d.mapping >= 0 && d.mapping < len(d.config.KeyMappings)
+//@   && d.activeNotesCounter != nil && d.noteTracker != nil && d.analogNoteTracker != nil && d.keyTracker != nil
+//@   && d.actionTracker != nil && d.ccZeroed != nil
+//@   && (forall ch byte :: ch < 16 ==> has(d.activeNotesCounter, ch) && d.activeNotesCounter[ch] != nil)
+//@   && (forall c1 byte, c2 byte :: c1 < 16 && c2 < 16 && c1 != c2 ==> d.activeNotesCounter[c1] != d.activeNotesCounter[c2])
+//@   && (forall k evdev.EvCode :: has(d.noteTracker, k) ==> d.noteTracker[k][0] <= 127 && d.noteTracker[k][1] < 16)
+//@   && (forall s string :: has(d.analogNoteTracker, s) ==> d.analogNoteTracker[s][0] <= 127 && d.analogNoteTracker[s][1] < 16)
+//@   && modeOK(d.config.CollisionMode)
+
+// history invariant (C01, C03): counters count the holders; everything sounding has a holder
+//@ pred counted(d *Device) :=
+//@   forall ch byte, n byte :: ch < 16 && n < 128 ==> d.activeNotesCounter[ch][n] == cnt(d.noteTracker, mkarr(n, ch))
+//@ pred held(d *Device) :=
+//@   forall ch byte, n byte :: sounding[ch][n] ==> ch < 16 && n < 128 && (d.activeNotesCounter[ch][n] >= 1 || cnt(d.analogNoteTracker, mkarr(n, ch)) >= 1)
+//@ pred InvCore(d *Device) := wf(d) && counted(d) && held(d)
+
+// ---- NoteOn / NoteOff
+
+//@ func (*Device).NoteOn
+//@   requires wf(d) && ev != nil
+//@   let code := ev.Event.Code
+//@   let mapped := has(d.config.KeyMappings[d.mapping].Midi[ev.Source.Name], code)
+//@   let key := d.config.KeyMappings[d.mapping].Midi[ev.Source.Name][code]
+//@   let s := int64(key.Note) + 12 * int64(d.octave) + int64(d.semitone)
+//@   let sounds := mapped && s >= 0 && s <= 127
+//@   let n := byte(s)
+//@   let ch := (d.channel + key.ChannelOffset) % 16
+//@   let c := d.activeNotesCounter[ch][n]
+//@   let mode := d.config.CollisionMode
+//@   let onEv := mkev(0x90 | ch, n, d.velocity)
+//@   let offEv := mkev(0x80 | ch, n, 0)
+//@   let quiet := mode == config.CollisionNoRepeat && c > 0
+//@   let cut := mode == config.CollisionInterrupt && c > 0
+//@   ensures [C04] !sounds ==> outLen == old(outLen) && out == old(out)
+//@   ensures [C04] !sounds ==> keys(d.noteTracker) == old(keys(d.noteTracker)) && vals(d.noteTracker) == old(vals(d.noteTracker))
+//@   ensures [C04] !sounds ==> keys(d.activeNotesCounter[ch]) == old(keys(d.activeNotesCounter[ch])) && vals(d.activeNotesCounter[ch]) == old(vals(d.activeNotesCounter[ch]))
+//@   ensures [C03] sounds && quiet ==> outLen == old(outLen) && out == old(out)
+//@   ensures [C03,C04] sounds && !quiet && !cut ==> outLen == old(outLen) + 1 && out == upd(old(out), old(outLen), onEv)
+//@   ensures [C03,C04] sounds && cut ==> outLen == old(outLen) + 2 && out == upd(upd(old(out), old(outLen), offEv), old(outLen) + 1, onEv)
+//@   ensures [C02,C03] sounds ==> keys(d.noteTracker) == upd(old(keys(d.noteTracker)), code, true) && vals(d.noteTracker) == upd(old(vals(d.noteTracker)), code, mkarr(n, ch))
+//@   ensures [C03] sounds ==> keys(d.activeNotesCounter[ch]) == upd(old(keys(d.activeNotesCounter[ch])), n, true) && vals(d.activeNotesCounter[ch]) == upd(old(vals(d.activeNotesCounter[ch])), n, c + 1)
+//@   ensures wf(d)
+//@   ensures [C01,C03] old(InvCore(d)) && !old(has(d.noteTracker, code)) ==> InvCore(d)
+//@   safety [C01,C05]
+//@   modifies d.noteTracker[_], d.activeNotesCounter[ch][_], out, outLen, sounding
+
+//@ func (*Device).NoteOff
+//@   requires wf(d) && ev != nil
+//@   let code := ev.Event.Code
+//@   let tracked := has(d.noteTracker, code)
+//@   let note := d.noteTracker[code][0]
+//@   let ch := d.noteTracker[code][1]
+//@   let c := d.activeNotesCounter[ch][note]
+//@   let managed := d.config.CollisionMode != config.CollisionOff
+//@   ensures [C02] !tracked ==> outLen == old(outLen) && out == old(out)
+//@   ensures [C02,C03] tracked && (!managed || c == 1) ==> outLen == old(outLen) + 1 && out == upd(old(out), old(outLen), mkev(0x80 | ch, note, 0))
+//@   ensures [C03] tracked && managed && c != 1 ==> outLen == old(outLen) && out == old(out)
+//@   ensures [C01,C02] keys(d.noteTracker) == upd(old(keys(d.noteTracker)), code, false) && vals(d.noteTracker) == old(vals(d.noteTracker))
+//@   ensures [C03] tracked ==> keys(d.activeNotesCounter[ch]) == upd(old(keys(d.activeNotesCounter[ch])), note, true) && vals(d.activeNotesCounter[ch]) == upd(old(vals(d.activeNotesCounter[ch])), note, c - 1)
+//@   ensures [C03] !tracked ==> keys(d.activeNotesCounter[ch]) == old(keys(d.activeNotesCounter[ch])) && vals(d.activeNotesCounter[ch]) == old(vals(d.activeNotesCounter[ch]))
+//@   ensures wf(d)
+//@   ensures [C01,C03] old(InvCore(d)) ==> InvCore(d)
+//@   safety [C01,C05]
+//@   modifies d.noteTracker[_], d.activeNotesCounter[ch][_], out, outLen, sounding
+
+// ---- analog (key-emulating axis) notes
+
+//@ func (*Device).AnalogNoteOn
+//@   requires wf(d) && ev != nil
+//@   let s := int64(note) + 12 * int64(d.octave) + int64(d.semitone)
+//@   let sounds := s >= 0 && s <= 127
+//@   let n := byte(s)
+//@   let ch := (d.channel + channelOffset) % 16
+//@   ensures [C04,C08] !sounds ==> outLen == old(outLen) && out == old(out) && keys(d.analogNoteTracker) == old(keys(d.analogNoteTracker)) && vals(d.analogNoteTracker) == old(vals(d.analogNoteTracker))
+//@   ensures [C04,C08] sounds ==> outLen == old(outLen) + 1 && out == upd(old(out), old(outLen), mkev(0x90 | ch, n, 64))
+//@   ensures [C02,C08] sounds ==> keys(d.analogNoteTracker) == upd(old(keys(d.analogNoteTracker)), identifier, true) && vals(d.analogNoteTracker) == upd(old(vals(d.analogNoteTracker)), identifier, mkarr(n, ch))
+//@   ensures wf(d)
+//@   ensures [C01,C08] old(InvCore(d)) && !old(has(d.analogNoteTracker, identifier)) ==> InvCore(d)
+//@   safety [C01,C05]
+//@   modifies d.analogNoteTracker[_], out, outLen, sounding
+
+//@ func (*Device).AnalogNoteOff
+//@   requires wf(d) && ev != nil
+//@   let tracked := has(d.analogNoteTracker, identifier)
+//@   let note := d.analogNoteTracker[identifier][0]
+//@   let ch := d.analogNoteTracker[identifier][1]
+//@   ensures [C02,C08] !tracked ==> outLen == old(outLen) && out == old(out)
+//@   ensures [C02,C08] tracked ==> outLen == old(outLen) + 1 && out == upd(old(out), old(outLen), mkev(0x80 | ch, note, 0))
+//@   ensures [C01,C02,C08] keys(d.analogNoteTracker) == upd(old(keys(d.analogNoteTracker)), identifier, false) && vals(d.analogNoteTracker) == old(vals(d.analogNoteTracker))
+//@   ensures wf(d)
+//@   ensures [C01,C08] old(InvCore(d)) ==> InvCore(d)
+//@   safety [C01,C05]
+//@   modifies d.analogNoteTracker[_], out, outLen, sounding
+
+// ---- state actions: they emit nothing (frame: out, outLen, sounding are not in `modifies`) and change only their own parameter
+
+//@ func (*Device).OctaveDown
+//@   requires wf(d)
+//@   ensures [C04] old(d.octave) > -128 ==> d.octave == old(d.octave) - 1
+//@   ensures wf(d)
+//@   safety [C04]
+//@   modifies d.octave
+
+//@ func (*Device).OctaveUp
+//@   requires wf(d)
+//@   ensures [C04] old(d.octave) < 127 ==> d.octave == old(d.octave) + 1
+//@   ensures wf(d)
+//@   safety [C04]
+//@   modifies d.octave
+
+//@ func (*Device).OctaveReset
+//@   requires wf(d)
+//@   ensures [C04] d.octave == 0
+//@   ensures wf(d)
+//@   safety [C04]
+//@   modifies d.octave
+
+//@ func (*Device).SemitoneDown
+//@   requires wf(d)
+//@   ensures [C04] old(d.semitone) > -128 ==> d.semitone == old(d.semitone) - 1
+//@   ensures wf(d)
+//@   safety [C04]
+//@   modifies d.semitone
+
+//@ func (*Device).SemitoneUp
+//@   requires wf(d)
+//@   ensures [C04] old(d.semitone) < 127 ==> d.semitone == old(d.semitone) + 1
+//@   ensures wf(d)
+//@   safety [C04]
+//@   modifies d.semitone
+
+//@ func (*Device).SemitoneReset
+//@   requires wf(d)
+//@   ensures [C04] d.semitone == 0
+//@   ensures wf(d)
+//@   safety [C04]
+//@   modifies d.semitone
+
+//@ func (*Device).MappingDown
+//@   requires wf(d)
+//@   ensures [C04] d.mapping == (if old(d.mapping) == 0 then 0 else old(d.mapping) - 1)
+//@   ensures wf(d)
+//@   safety [C04]
+//@   modifies d.mapping
+
+//@ func (*Device).MappingUp
+//@   requires wf(d)
+//@   ensures [C04] d.mapping == (if old(d.mapping) == len(d.config.KeyMappings) - 1 then old(d.mapping) else old(d.mapping) + 1)
+//@   ensures wf(d)
+//@   safety [C04]
+//@   modifies d.mapping
+
+//@ func (*Device).MappingReset
+//@   requires wf(d)
+//@   ensures [C04] d.mapping == 0
+//@   ensures wf(d)
+//@   safety [C04]
+//@   modifies d.mapping
+
+//@ func (*Device).ChannelDown
+//@   requires wf(d)
+//@   ensures [C04] d.channel == (if old(d.channel) == 0 then 0 else old(d.channel) - 1)
+//@   ensures wf(d)
+//@   safety [C04]
+//@   modifies d.channel
+
+//@ func (*Device).ChannelUp
+//@   requires wf(d)
+//@   ensures [C04] d.channel == (if old(d.channel) == 15 then 15 else old(d.channel) + 1)
+//@   ensures wf(d)
+//@   safety [C04]
+//@   modifies d.channel
+
+//@ func (*Device).ChannelReset
+//@   requires wf(d)
+//@   ensures [C04] d.channel == 0
+//@   ensures wf(d)
+//@   safety [C04]
+//@   modifies d.channel
+
+//@ func (*Device).CCLearningOn
+//@   requires wf(d)
+//@   ensures [C07] d.ccLearning
+//@   ensures wf(d)
+//@   modifies d.ccLearning
+
+//@ func (*Device).CCLearningOff
+//@   requires wf(d)
+//@   ensures [C07] !d.ccLearning
+//@   ensures wf(d)
+//@   modifies d.ccLearning
+
+// the no-op registered for the multinote key press
+//@ func NewDevice$1
+//@   modifies nothing
+
+//@ func (*Device).Multinote
+//@   requires wf(d)
+//@   ensures wf(d)
+//@   modifies d.multiNote, heap("[]int"), heap("*[1]int")
+
+// ---- panic (C13): All Notes Off + 128 explicit Note Offs on the current channel, nothing else; playing state untouched (frame)
+
+// the output of one panic on channel ch: CC 123 then Note Off for each of the 128 notes; nothing else is touched
+//@ pred panicOut(o0 fun[int]Ev, l0 int, o1 fun[int]Ev, l1 int, s0 fun[byte]set[byte], s1 fun[byte]set[byte], ch byte) :=
+//@   l1 == l0 + 129 && o1[l0] == mkev(0xB0 | ch, 123, 0)
+//@   && (forall n int :: 0 <= n && n < 128 ==> o1[l0 + 1 + n] == mkev(0x80 | ch, byte(n), 0))
+//@   && (forall i int :: uint64(i - l0) >= 129 ==> o1[i] == o0[i])
+//@   && s1 == upd(s0, ch, emptyset("set[byte]"))
+
+//@ func (*Device).Panic
+//@   requires wf(d)
+//@   let ch := d.channel
+//@   ensures [C01,C13] panicOut(old(out), old(outLen), out, outLen, old(sounding), sounding, ch)
+//@   ensures wf(d)
+//@   ensures [C01] old(InvCore(d)) ==> InvCore(d)
+//@   loop 1 invariant note <= 128
+//@   loop 1 invariant outLen == old(outLen) + 1 + int(note)
+//@   loop 1 invariant out[old(outLen)] == mkev(0xB0 | ch, 123, 0)
+//@   loop 1 invariant forall n int :: 0 <= n && n < int(note) ==> out[old(outLen) + 1 + n] == mkev(0x80 | ch, byte(n), 0)
+//@   loop 1 invariant forall i int :: uint64(i - old(outLen)) >= uint64(1 + int(note)) ==> out[i] == old(out)[i]
+//@   loop 1 invariant sounding == upd(old(sounding), ch, emptyset("set[byte]"))
+//@   safety [C05,C13]
+//@   modifies out, outLen, sounding, d.externalNoteTracker, heap("map[byte]map[byte]bool"), heap("map[byte]bool")
+
+// ---- pair detection (C04): both keys of an up/down pair held resets that parameter, in this priority order
+
+//@ pred pairMapping(d *Device) := d.actionTracker[config.MappingUp] && d.actionTracker[config.MappingDown]
+//@ pred pairOctave(d *Device) := d.actionTracker[config.OctaveUp] && d.actionTracker[config.OctaveDown]
+//@ pred pairSemitone(d *Device) := d.actionTracker[config.SemitoneUp] && d.actionTracker[config.SemitoneDown]
+//@ pred pairChannel(d *Device) := d.actionTracker[config.ChannelUp] && d.actionTracker[config.ChannelDown]
+
+//@ func (*Device).checkDoubleActions
+//@   requires wf(d)
+//@   let mp := pairMapping(d)
+//@   let oc := !mp && pairOctave(d)
+//@   let se := !mp && !oc && pairSemitone(d)
+//@   let cn := !mp && !oc && !se && pairChannel(d)
+//@   ensures [C04] result == (mp || oc || se || cn)
+//@   ensures [C04] d.mapping == (if mp then 0 else old(d.mapping))
+//@   ensures [C04] d.octave == (if oc then 0 else old(d.octave))
+//@   ensures [C04] d.semitone == (if se then 0 else old(d.semitone))
+//@   ensures [C04] d.channel == (if cn then 0 else old(d.channel))
+//@   ensures wf(d)
+//@   safety [C04]
+//@   modifies d.mapping, d.octave, d.semitone, d.channel
+
+// ---- exit sequence (C14)
+
+//@ func (*Device).checkExitSequence
+//@   requires wf(d)
+//@   let seq := d.config.ExitSequence
+//@   let complete := len(seq) > 0 && (forall i int :: 0 <= i && i < len(seq) ==> has(d.keyTracker, seq[i]))
+//@   ensures [C14] result == complete
+//@   ensures [C14] sigs == old(sigs) + (if complete then 1 else 0)
+//@   loop 1 invariant 0 <= idx() && idx() <= len(d.config.ExitSequence)
+//@   loop 1 invariant forall j int :: 0 <= j && j < idx() ==> has(d.keyTracker, d.config.ExitSequence[j])
+//@   loop 1 invariant sigs == old(sigs)
+//@   safety [C14]
+//@   modifies sigs
+
+// ---- action dispatch tables (established by NewDevice, never written afterwards)
+
+//@ pred tableOK(d *Device) :=
+//@   d.actionsPress != nil && d.actionsRelease != nil
+//@   && (forall a config.Action :: has(d.actionsPress, a) <==> (a == config.Panic || a == config.MappingUp || a == config.MappingDown
+//@        || a == config.OctaveUp || a == config.OctaveDown || a == config.SemitoneUp || a == config.SemitoneDown
+//@        || a == config.ChannelUp || a == config.ChannelDown || a == config.Multinote || a == config.Learning))
+//@   && d.actionsPress[config.Panic] == fnref("(*Device).Panic")
+//@   && d.actionsPress[config.MappingUp] == fnref("(*Device).MappingUp") && d.actionsPress[config.MappingDown] == fnref("(*Device).MappingDown")
+//@   && d.actionsPress[config.OctaveUp] == fnref("(*Device).OctaveUp") && d.actionsPress[config.OctaveDown] == fnref("(*Device).OctaveDown")
+//@   && d.actionsPress[config.SemitoneUp] == fnref("(*Device).SemitoneUp") && d.actionsPress[config.SemitoneDown] == fnref("(*Device).SemitoneDown")
+//@   && d.actionsPress[config.ChannelUp] == fnref("(*Device).ChannelUp") && d.actionsPress[config.ChannelDown] == fnref("(*Device).ChannelDown")
+//@   && d.actionsPress[config.Multinote] == fnref("NewDevice$1") && d.actionsPress[config.Learning] == fnref("(*Device).CCLearningOn")
+//@   && (forall a config.Action :: has(d.actionsRelease, a) <==> a == config.Learning)
+//@   && d.actionsRelease[config.Learning] == fnref("(*Device).CCLearningOff")
+
+//@ func (*Device).invokeActionPress
+//@   requires wf(d) && tableOK(d)
+//@   ensures [C04] d.octave == (if action == config.OctaveUp && old(d.octave) < 127 then old(d.octave) + 1 else if action == config.OctaveDown && old(d.octave) > -128 then old(d.octave) - 1 else d.octave)
+//@   ensures [C04] action != config.OctaveUp && action != config.OctaveDown ==> d.octave == old(d.octave)
+//@   ensures [C04] d.semitone == (if action == config.SemitoneUp && old(d.semitone) < 127 then old(d.semitone) + 1 else if action == config.SemitoneDown && old(d.semitone) > -128 then old(d.semitone) - 1 else d.semitone)
+//@   ensures [C04] action != config.SemitoneUp && action != config.SemitoneDown ==> d.semitone == old(d.semitone)
+//@   ensures [C04] d.channel == (if action == config.ChannelUp && old(d.channel) != 15 then old(d.channel) + 1 else if action == config.ChannelDown && old(d.channel) != 0 then old(d.channel) - 1 else old(d.channel))
+//@   ensures [C04] d.mapping == (if action == config.MappingUp && old(d.mapping) != len(d.config.KeyMappings) - 1 then old(d.mapping) + 1 else if action == config.MappingDown && old(d.mapping) != 0 then old(d.mapping) - 1 else old(d.mapping))
+//@   ensures [C07] d.ccLearning == (action == config.Learning || old(d.ccLearning))
+//@   ensures [C02,C13] action != config.Panic ==> outLen == old(outLen) && out == old(out) && sounding == old(sounding)
+//@   ensures [C13] action == config.Panic ==> panicOut(old(out), old(outLen), out, outLen, old(sounding), sounding, old(d.channel))
+//@   ensures wf(d)
+//@   ensures [C01] old(InvCore(d)) ==> InvCore(d)
+//@   safety [C04,C13]
+//@   modifies d.octave, d.semitone, d.channel, d.mapping, d.ccLearning, out, outLen, sounding, d.externalNoteTracker, heap("map[byte]map[byte]bool"), heap("map[byte]bool")
+
+//@ func (*Device).invokeActionRelease
+//@   requires wf(d) && tableOK(d)
+//@   ensures [C07] d.ccLearning == (action != config.Learning && old(d.ccLearning))
+//@   ensures wf(d)
+//@   safety [C04]
+//@   modifies d.ccLearning
+
+// ---- key events
+
+// what the kernel delivers for a key (the property's own environment assumption): press/release only, a press only of a key that is up
+//@ pred envKey(d *Device, ie *input.InputEvent) :=
+//@   ie != nil && (ie.Event.Value == 0 || ie.Event.Value == 1) && (ie.Event.Value == 1 ==> !has(d.keyTracker, ie.Event.Code))
+
+// (I1) only held keys are tracked; (I2) action keys never hold notes
+//@ pred keysInv(d *Device) :=
+//@   (forall k evdev.EvCode :: has(d.noteTracker, k) ==> has(d.keyTracker, k))
+//@   && (forall k evdev.EvCode :: has(d.noteTracker, k) ==> !has(d.config.ActionMapping, k))
+//@ pred Inv(d *Device) := InvCore(d) && keysInv(d)
+
+//@ func (*Device).handleKEYEvent
+//@   requires wf(d) && tableOK(d) && ie != nil && (ie.Event.Value == 0 || ie.Event.Value == 1)
+//@   let code := ie.Event.Code
+//@   let press := ie.Event.Value == 1
+//@   let isAction := has(d.config.ActionMapping, code)
+//@   let action := d.config.ActionMapping[code]
+//@   let kt1 := upd(keys(d.keyTracker), code, press)
+//@   let seq := d.config.ExitSequence
+//@   let exits := press && len(seq) > 0 && (forall i int :: 0 <= i && i < len(seq) ==> kt1[seq[i]])
+//@   let tracked := has(d.noteTracker, code)
+//@   let tn := d.noteTracker[code][0]
+//@   let tc := d.noteTracker[code][1]
+//@   let mapped := has(d.config.KeyMappings[d.mapping].Midi[ie.Source.Name], code)
+//@   let key := d.config.KeyMappings[d.mapping].Midi[ie.Source.Name][code]
+//@   let s := int64(key.Note) + 12 * int64(d.octave) + int64(d.semitone)
+//@   let sounds := mapped && s >= 0 && s <= 127
+//@   let n := byte(s)
+//@   let ch := (d.channel + key.ChannelOffset) % 16
+//@   let c := d.activeNotesCounter[ch][n]
+//@   let quiet := d.config.CollisionMode == config.CollisionNoRepeat && c > 0
+//@   let cut := d.config.CollisionMode == config.CollisionInterrupt && c > 0
+//@   let mU := action == config.MappingUp || d.actionTracker[config.MappingUp]
+//@   let mD := action == config.MappingDown || d.actionTracker[config.MappingDown]
+//@   let oU := action == config.OctaveUp || d.actionTracker[config.OctaveUp]
+//@   let oD := action == config.OctaveDown || d.actionTracker[config.OctaveDown]
+//@   let sU := action == config.SemitoneUp || d.actionTracker[config.SemitoneUp]
+//@   let sD := action == config.SemitoneDown || d.actionTracker[config.SemitoneDown]
+//@   let cU := action == config.ChannelUp || d.actionTracker[config.ChannelUp]
+//@   let cD := action == config.ChannelDown || d.actionTracker[config.ChannelDown]
+//@   let pair := (mU && mD) || (oU && oD) || (sU && sD) || (cU && cD)
+//@   ensures [C01,C14] keys(d.keyTracker) == kt1
+//@   ensures [C14] sigs == old(sigs) + (if exits then 1 else 0)
+//@   ensures [C14] exits ==> outLen == old(outLen) && out == old(out) && d.octave == old(d.octave) && d.semitone == old(d.semitone) && d.channel == old(d.channel) && d.mapping == old(d.mapping) && d.ccLearning == old(d.ccLearning)
+//@   ensures [C14] exits ==> keys(d.noteTracker) == old(keys(d.noteTracker)) && keys(d.actionTracker) == old(keys(d.actionTracker)) && vals(d.actionTracker) == old(vals(d.actionTracker))
+//@   ensures [C02] isAction && !(press && action == config.Panic) ==> outLen == old(outLen) && out == old(out)
+//@   ensures [C02] !press && !isAction && !tracked ==> outLen == old(outLen) && out == old(out)
+//@   ensures [C02] !press && !isAction && tracked ==> (outLen == old(outLen) && out == old(out)) || (outLen == old(outLen) + 1 && out == upd(old(out), old(outLen), mkev(0x80 | tc, tn, 0)))
+//@   ensures [C02] !press && !isAction ==> d.octave == old(d.octave) && d.semitone == old(d.semitone) && d.channel == old(d.channel) && d.mapping == old(d.mapping)
+//@   ensures [C01,C02] !press && !isAction ==> !has(d.noteTracker, code)
+//@   ensures [C04] press && !isAction && !exits && !sounds ==> outLen == old(outLen) && out == old(out)
+//@   ensures [C04] press && !isAction && !exits && sounds && !quiet && !cut ==> outLen == old(outLen) + 1 && out == upd(old(out), old(outLen), mkev(0x90 | ch, n, d.velocity))
+//@   ensures [C04] press && !isAction && !exits && sounds && cut ==> outLen == old(outLen) + 2 && out[old(outLen) + 1] == mkev(0x90 | ch, n, d.velocity)
+//@   ensures [C04] press && !isAction ==> d.octave == old(d.octave) && d.semitone == old(d.semitone) && d.channel == old(d.channel) && d.mapping == old(d.mapping) && d.velocity == old(d.velocity)
+//@   ensures [C04] press && isAction && !exits && mU && mD ==> d.mapping == 0 && d.octave == old(d.octave) && d.semitone == old(d.semitone) && d.channel == old(d.channel)
+//@   ensures [C04] press && isAction && !exits && !(mU && mD) && oU && oD ==> d.octave == 0 && d.mapping == old(d.mapping) && d.semitone == old(d.semitone) && d.channel == old(d.channel)
+//@   ensures [C04] press && isAction && !exits && !(mU && mD) && !(oU && oD) && sU && sD ==> d.semitone == 0 && d.mapping == old(d.mapping) && d.octave == old(d.octave) && d.channel == old(d.channel)
+//@   ensures [C04] press && isAction && !exits && !(mU && mD) && !(oU && oD) && !(sU && sD) && cU && cD ==> d.channel == 0 && d.mapping == old(d.mapping) && d.octave == old(d.octave) && d.semitone == old(d.semitone)
+//@   ensures [C02,C04] press && isAction && !exits && pair ==> outLen == old(outLen) && out == old(out)
+//@   ensures [C04] press && isAction && !exits && !pair && action == config.OctaveUp && old(d.octave) < 127 ==> d.octave == old(d.octave) + 1
+//@   ensures [C04] press && isAction && !exits && !pair && action == config.OctaveDown && old(d.octave) > -128 ==> d.octave == old(d.octave) - 1
+//@   ensures [C04] press && isAction && !exits && !pair && action == config.SemitoneUp && old(d.semitone) < 127 ==> d.semitone == old(d.semitone) + 1
+//@   ensures [C04] press && isAction && !exits && !pair && action == config.SemitoneDown && old(d.semitone) > -128 ==> d.semitone == old(d.semitone) - 1
+//@   ensures [C04] press && isAction && !exits && !pair && action == config.ChannelUp ==> d.channel == (if old(d.channel) == 15 then 15 else old(d.channel) + 1)
+//@   ensures [C04] press && isAction && !exits && !pair && action == config.ChannelDown ==> d.channel == (if old(d.channel) == 0 then 0 else old(d.channel) - 1)
+//@   ensures [C04] press && isAction && !exits && !pair && action == config.MappingUp ==> d.mapping == (if old(d.mapping) == len(d.config.KeyMappings) - 1 then old(d.mapping) else old(d.mapping) + 1)
+//@   ensures [C04] press && isAction && !exits && !pair && action == config.MappingDown ==> d.mapping == (if old(d.mapping) == 0 then 0 else old(d.mapping) - 1)
+//@   ensures [C13] press && isAction && !exits && !pair && action == config.Panic ==> panicOut(old(out), old(outLen), out, outLen, old(sounding), sounding, old(d.channel))
+//@   ensures [C13] press && isAction && !exits && !pair && action == config.Panic ==> keys(d.noteTracker) == old(keys(d.noteTracker)) && vals(d.noteTracker) == old(vals(d.noteTracker)) && d.octave == old(d.octave) && d.semitone == old(d.semitone) && d.channel == old(d.channel) && d.mapping == old(d.mapping)
+//@   ensures wf(d) && tableOK(d)
+//@   ensures [C01] old(Inv(d)) && old(envKey(d, ie)) ==> Inv(d)
+//@   safety [C01,C05]
+//@   modifies d.keyTracker[_], d.actionTracker[_], d.noteTracker[_], d.activeNotesCounter[_][_], d.octave, d.semitone, d.channel, d.mapping, d.ccLearning, d.multiNote, heap("[]int"), heap("*[1]int"), out, outLen, sounding, sigs, d.externalNoteTracker, heap("map[byte]map[byte]bool"), heap("map[byte]bool")
+
+// ---- axis events
+
+//@ func (*Device).handleABSEvent
+//@   requires wf(d) && tableOK(d) && ie != nil
+//@   ensures wf(d) && tableOK(d)
+//@   ensures [C01] old(Inv(d)) ==> Inv(d)
+//@   modifies d.keyTracker[_], d.actionTracker[_], d.analogNoteTracker[_], d.lastAnalogValue[_][_], d.ccZeroed[_], d.octave, d.semitone, d.channel, d.mapping, d.ccLearning, out, outLen, sounding, d.externalNoteTracker, heap("map[byte]map[byte]bool"), heap("map[byte]bool")
+
+// ---- event loop
+
+// what the kernel delivers: key events are press/release/repeat, and a press is of a key that is up (alternation)
+//@ pred envEvent(d *Device, ie *input.InputEvent) :=
+//@   ie != nil && (ie.Event.Type == evdev.EV_KEY ==> (ie.Event.Value == 0 || ie.Event.Value == 1 || ie.Event.Value == 2)
+//@                  && (ie.Event.Value == 1 ==> !has(d.keyTracker, ie.Event.Code)))
+
+//@ func (*Device).processEvent
+//@   requires wf(d) && tableOK(d) && event != nil
+//@   requires event.Event.Type == evdev.EV_KEY ==> event.Event.Value == 0 || event.Event.Value == 1 || event.Event.Value == 2
+//@   ensures wf(d) && tableOK(d)
+//@   ensures [C01] old(Inv(d)) && old(envEvent(d, event)) ==> Inv(d)
+//@   safety [C01]
+//@   modifies d.keyTracker[_], d.actionTracker[_], d.noteTracker[_], d.activeNotesCounter[_][_], d.analogNoteTracker[_], d.lastAnalogValue[_][_], d.ccZeroed[_], d.octave, d.semitone, d.channel, d.mapping, d.ccLearning, d.multiNote, heap("[]int"), heap("*[1]int"), out, outLen, sounding, sigs, d.externalNoteTracker, heap("map[byte]map[byte]bool"), heap("map[byte]bool")
+
+// C01, second sentence: when the event stream ends (at any moment: the loop invariant holds after every prefix),
+// every note still tracked is released before processing ends, so nothing is left sounding at the receiver.
+//@ func (*Device).ProcessEvents
+//@   requires wf(d) && tableOK(d) && Inv(d)
+//@   assume env envEvent(d, recv)
+//@   ensures [C01] empty(d.noteTracker) && empty(d.analogNoteTracker)
+//@   ensures [C01] forall ch byte, n byte :: !sounding[ch][n]
+//@   loop 1 invariant [C01] wf(d) && tableOK(d) && Inv(d)
+//@   loop 2 invariant [C01] wf(d) && InvCore(d) && (forall k evdev.EvCode :: visited(k) ==> !has(d.noteTracker, k))
+//@   loop 3 invariant [C01] wf(d) && InvCore(d) && empty(d.noteTracker) && (forall s string :: visited(s) ==> !has(d.analogNoteTracker, s))
+//@   safety [C01]
+
+// ---- property lemmas (consequences of the invariants alone)
+
+// C01, first sentence: whenever no key and no key-emulating axis is held, nothing started by the device is sounding
+//@ lemma C01_quiescence [C01]: forall d *Device :: Inv(d) && empty(d.keyTracker) && empty(d.analogNoteTracker) ==> (forall ch byte, n byte :: !sounding[ch][n])
+
+// C03: under the counting invariant the counter is the number of holders: zero iff nobody holds the pitch,
+// and at a release it is one iff the released key is the only holder
+//@ lemma C03_first_holder [C03]: forall d *Device, ch byte, n byte :: counted(d) && ch < 16 && n < 128 ==> (d.activeNotesCounter[ch][n] == 0 <==> !(exists k evdev.EvCode :: has(d.noteTracker, k) && d.noteTracker[k] == mkarr(n, ch)))
+//@ lemma C03_last_holder [C03]: forall d *Device, k evdev.EvCode, k2 evdev.EvCode :: wf(d) && counted(d) && has(d.noteTracker, k) && has(d.noteTracker, k2) && k != k2 && d.noteTracker[k] == d.noteTracker[k2] ==> d.activeNotesCounter[d.noteTracker[k][1]][d.noteTracker[k][0]] >= 2
+
+// vacuity guards for the counting axioms and the invariants: these must NOT be provable
+//@ canary inv_not_contradictory [C01,C03]: forall d *Device :: !(Inv(d) && tableOK(d) && has(d.noteTracker, 30) && has(d.noteTracker, 31) && d.noteTracker[30] == d.noteTracker[31] && sounding[0][60])
+//@ canary counting_not_trivial [C01,C03]: forall d *Device :: counted(d) ==> d.activeNotesCounter[0][0] == 0
+
+// ---- construction: the configured defaults are the initial state (C04); wf, the dispatch tables and Inv are established
+
+// what an accepted configuration guarantees (ParseData's postcondition, C10) as far as the device needs it
+//@ pred cfgOK(c config.Config) :=
+//@   len(c.KeyMappings) >= 1 && c.Defaults.Mapping >= 0 && c.Defaults.Mapping < len(c.KeyMappings)
+//@   && c.Defaults.Channel >= 1 && c.Defaults.Channel <= 16 && c.Defaults.Velocity >= 1 && c.Defaults.Velocity <= 127
+//@   && modeOK(c.CollisionMode)
+
+//@ func NewDevice
+//@   requires cfgOK(cfg.Config)
+//@   requires forall ch byte, n byte :: !sounding[ch][n]
+//@   ensures [C04] result.octave == int8(cfg.Config.Defaults.Octave) && result.semitone == int8(cfg.Config.Defaults.Semitone)
+//@   ensures [C04] int(result.channel) + 1 == cfg.Config.Defaults.Channel && result.mapping == cfg.Config.Defaults.Mapping && int(result.velocity) == cfg.Config.Defaults.Velocity
+//@   ensures [C01,C04,C05] forall p *Device :: p != nil && pointsTo(p, result) ==> wf(p) && tableOK(p) && Inv(p)
+//@   ensures [C01] empty(result.keyTracker) && empty(result.noteTracker) && empty(result.analogNoteTracker)
+//@   loop 1 invariant ch <= 16 && activeNoteCounter != nil
+//@   loop 1 invariant forall c byte :: c < ch ==> has(activeNoteCounter, c) && activeNoteCounter[c] != nil && allocated(activeNoteCounter[c])
+//@   loop 1 invariant forall c1 byte, c2 byte :: c1 < ch && c2 < ch && c1 != c2 ==> activeNoteCounter[c1] != activeNoteCounter[c2]
+//@   loop 1 invariant forall c byte, n byte :: c < ch ==> activeNoteCounter[c][n] == 0
+//@   loop 2 invariant ch < 16 && note <= 128 && activeNoteCounter != nil && t != nil && allocated(t)
+//@   loop 2 invariant forall c byte :: c < ch ==> has(activeNoteCounter, c) && activeNoteCounter[c] != nil && allocated(activeNoteCounter[c]) && activeNoteCounter[c] != t
+//@   loop 2 invariant forall c1 byte, c2 byte :: c1 < ch && c2 < ch && c1 != c2 ==> activeNoteCounter[c1] != activeNoteCounter[c2]
+//@   loop 2 invariant forall c byte, n byte :: c < ch ==> activeNoteCounter[c][n] == 0
+//@   loop 2 invariant forall n byte :: t[n] == 0
+//@   safety [C04]
